@@ -93,6 +93,9 @@ class _FuseMinMaxBase(RewriteRuleClassBase, abc.ABC):
         first_node = out1.producer()
         second_node = out2.producer()
 
+        if len(first_node.inputs) < 2 or len(second_node.inputs) < 2:
+            return check_result.fail("Min/Max with a single input has no constant to fuse.")
+
         # Ensure all inputs except the first are constants
         for input_ in first_node.inputs[1:] + second_node.inputs[1:]:
             if ir.convenience.get_const_tensor(input_) is None:
@@ -187,8 +190,8 @@ class FuseMaxMinToClip(_FuseMinMaxBase):
         second_node: ir.Node,
         input_name: str = "",
     ) -> list[tuple[ir.Tensor, str]]:
-        lower_bound = np.max([input_.const_value.numpy() for input_ in first_node.inputs[1:]])
-        upper_bound = np.min([input_.const_value.numpy() for input_ in second_node.inputs[1:]])
+        lower_bound = np.max([input_.const_value.numpy().reshape(()) for input_ in first_node.inputs[1:]])
+        upper_bound = np.min([input_.const_value.numpy().reshape(()) for input_ in second_node.inputs[1:]])
         return [
             (ir.tensor(lower_bound), f"{input_name}_min"),
             (ir.tensor(upper_bound), f"{input_name}_max"),
@@ -223,8 +226,8 @@ class FuseMinMaxToClip(_FuseMinMaxBase):
         second_node: ir.Node,
         input_name: str = "",
     ) -> list[tuple[ir.Tensor, str]]:
-        upper_bound = np.min([input_.const_value.numpy() for input_ in first_node.inputs[1:]])
-        lower_bound = np.max([input_.const_value.numpy() for input_ in second_node.inputs[1:]])
+        upper_bound = np.min([input_.const_value.numpy().reshape(()) for input_ in first_node.inputs[1:]])
+        lower_bound = np.max([input_.const_value.numpy().reshape(()) for input_ in second_node.inputs[1:]])
         return [
             (ir.tensor(lower_bound), f"{input_name}_min"),
             (ir.tensor(upper_bound), f"{input_name}_max"),
